@@ -34,6 +34,8 @@ TEMPLATES = {
                    "{end_minute}.dat", level="day", sat=True),
     "satfile": dict(rel="{year}/{month}/{day}/{sat}_{hour}{minute}-{end_hour}"
                     "{end_minute}.dat", level="day", sat=True),
+    "daysat": dict(rel="{year}/{month}/{day}/{sat}/{hour}{minute}-{end_hour}"
+                   "{end_minute}.dat", level="day", sat=True),
     "wild": dict(rel="{year}/{month}/{day}/x*_{hour}{minute}.dat",
                  level="day", tc=dt.timedelta(hours=6)),
     "discrete": dict(rel="{year}/{month}/{day}/{hour}{minute}.dat",
